@@ -1,30 +1,37 @@
 """C13 - LDM queries return exactly the matching objects, identically on both back-ends.
 
 Decides: agreement of the operator vocabulary between its three holders (enum __str__ tables, OPERATOR_MAPPING, the
-literals the back-ends test); that each operator entry implements its own symbol; that both back-ends resolve a dotted
-attribute path from the same root; that a missing attribute is handled per object; that type selection applies on every
-query path; that ordering uses the requested attributes and direction.
+literals the back-ends test); that each operator entry implements its own symbol and is applied as
+(attribute value, reference value) with the operator / attribute / reference of ONE filter statement; that both
+back-ends resolve a dotted attribute path from the same root; that a missing attribute makes the object a non-match
+(per object); that type selection applies on every query path and keeps exactly the requested types; that ordering
+uses every requested attribute and the requested direction.
 Does not decide equivalence with a predicate evaluator over generated stores, nor TinyDB's own semantics.
+
+All decisions are taken on the AST / the flow facts (canonical atoms of sem.py, locals resolved through the flow,
+arguments bound to parameter names, callees resolved by the program model) - never on source text.
 """
 from __future__ import annotations
 
 import ast
-import re
 
+from .. import sem
+from ..flow import FunctionFlow, cond_atoms
 from ..prog import AnalysisError, ClassInfo, FuncInfo, dotted, unparse
-from ..match import pretty
 
 PROP = "C13"
 LDM = "facilities.local_dynamic_map"
 DB = f"{LDM}.dictionary_database.DictionaryDataBase"
 TDB = f"{LDM}.tinydb_database.TinyDB"
 SV = f"{LDM}.ldm_service.LDMService"
+REQ = f"{LDM}.ldm_classes.RequestDataObjectsReq"
+
+CMP = {ast.Eq: "==", ast.NotEq: "!=", ast.Gt: ">", ast.Lt: "<", ast.GtE: ">=", ast.LtE: "<="}
 
 
-def norm(s):
-    return re.sub(r"\s+", "", s)
-
-
+# --------------------------------------------------------------------------------------------
+# small structural helpers
+# --------------------------------------------------------------------------------------------
 def str_table(P, ci) -> dict:
     """{member: string} from `def __str__: return {Cls.X: "..."}[self]`."""
     m = ci.methods.get("__str__")
@@ -39,23 +46,228 @@ def str_table(P, ci) -> dict:
     return out
 
 
-CMP = {ast.Eq: "==", ast.NotEq: "!=", ast.Gt: ">", ast.Lt: "<", ast.GtE: ">=", ast.LtE: "<="}
+def is_name(n, name: str) -> bool:
+    """`n` is the (version-stripped) local / parameter / free variable `name`."""
+    return isinstance(n, ast.Name) and sem.cx(n) == name
 
 
+def short(e, n: int = 90) -> str:
+    try:
+        return sem._strip_versions(unparse(e))[:n]
+    except Exception:  # pragma: no cover
+        return "<?>"
+
+
+def targets(P, fi, call) -> list:
+    if not isinstance(call, ast.Call):
+        return []
+    return [t for t in P.call_targets(fi, call, count=False, cha=False) if isinstance(t, FuncInfo)]
+
+
+def calls_to(P, fi, call, qual_suffix: str) -> bool:
+    tg = targets(P, fi, call)
+    return len(tg) == 1 and (tg[0].qual == qual_suffix or tg[0].qual.endswith("." + qual_suffix))
+
+
+def bind(callee: FuncInfo, call: ast.Call):
+    """parameter name -> argument node (defaults filled in); None when the binding is not static."""
+    a = callee.node.args
+    names = [x.arg for x in a.posonlyargs + a.args]
+    off = 1 if callee.kind in ("method", "classmethod", "property") and names else 0
+    if any(isinstance(x, ast.Starred) for x in call.args) or any(k.arg is None for k in call.keywords):
+        return None
+    out = {}
+    for i, x in enumerate(call.args):
+        if i + off >= len(names):
+            return None
+        out[names[i + off]] = x
+    for k in call.keywords:
+        if k.arg in out:
+            return None
+        out[k.arg] = k.value
+    for nm, d in zip(names[len(names) - len(a.defaults):], a.defaults):
+        out.setdefault(nm, d)
+    for arg, d in zip(a.kwonlyargs, a.kw_defaults):
+        if d is not None:
+            out.setdefault(arg.arg, d)
+    return out
+
+
+def unwrap_seq(e):
+    """tuple(x) / list(x) -> x (same elements, same order)."""
+    while isinstance(e, ast.Call) and dotted(e.func) in ("tuple", "list") and len(e.args) == 1 and not e.keywords:
+        e = e.args[0]
+    return e
+
+
+def const_str(P, mod, e):
+    v = P.try_fold(mod, e)
+    return v if isinstance(v, str) else None
+
+
+def falsy_const(e) -> bool:
+    return isinstance(e, ast.Constant) and e.value in (False, None, 0) and not isinstance(e.value, str)
+
+
+def copy_load(e):
+    import copy
+    e = copy.deepcopy(e)
+    for n in ast.walk(e):
+        if hasattr(n, "ctx"):
+            n.ctx = ast.Load()
+    return e
+
+
+def arms(e) -> list:
+    """the values a (nested) conditional expression can take"""
+    return arms(e.body) + arms(e.orelse) if isinstance(e, ast.IfExp) else [e]
+
+
+def inside(node, root) -> bool:
+    return any(n is node for n in ast.walk(root))
+
+
+def terminates(stmts: list) -> bool:
+    """The block never falls off its end."""
+    if not stmts:
+        return False
+    last = stmts[-1]
+    if isinstance(last, (ast.Return, ast.Raise, ast.Continue, ast.Break)):
+        return True
+    if isinstance(last, ast.If):
+        return terminates(last.body) and terminates(last.orelse)
+    return False
+
+
+def covers_keyerror(h: ast.ExceptHandler) -> bool:
+    if h.type is None:
+        return True
+    elts = h.type.elts if isinstance(h.type, ast.Tuple) else [h.type]
+    return any((dotted(x) or "").split(".")[-1] in ("KeyError", "LookupError", "Exception", "BaseException") for x in elts)
+
+
+class Undecided(Exception):
+    pass
+
+
+def bool_eval(e, leaf):
+    """Value of a boolean expression whose leaves `leaf` can value (else Undecided)."""
+    v = leaf(e)
+    if v is not None:
+        return v
+    if isinstance(e, ast.Constant) and isinstance(e.value, bool):
+        return e.value
+    if isinstance(e, ast.UnaryOp) and isinstance(e.op, ast.Not):
+        return not bool_eval(e.operand, leaf)
+    if isinstance(e, ast.BoolOp):
+        vals = [bool_eval(x, leaf) for x in e.values]
+        return all(vals) if isinstance(e.op, ast.And) else any(vals)
+    if isinstance(e, ast.IfExp):
+        return bool_eval(e.body, leaf) if bool_eval(e.test, leaf) else bool_eval(e.orelse, leaf)
+    if isinstance(e, ast.Compare) and len(e.ops) == 1 and isinstance(e.ops[0], (ast.Eq, ast.NotEq, ast.Is, ast.IsNot)):
+        a, b = bool_eval(e.left, leaf), bool_eval(e.comparators[0], leaf)
+        return (a == b) if isinstance(e.ops[0], (ast.Eq, ast.Is)) else (a != b)
+    if isinstance(e, ast.BinOp) and isinstance(e.op, (ast.BitXor, ast.BitAnd, ast.BitOr)):
+        a, b = bool_eval(e.left, leaf), bool_eval(e.right, leaf)
+        return (a != b) if isinstance(e.op, ast.BitXor) else (a and b) if isinstance(e.op, ast.BitAnd) else (a or b)
+    if isinstance(e, ast.Call) and dotted(e.func) == "bool" and len(e.args) == 1 and not e.keywords:
+        return bool_eval(e.args[0], leaf)
+    raise Undecided(short(e))
+
+
+def new_guards(fl, node, base_node) -> list:
+    """[(test node, polarity, fact)] of the conditions in force at `node` that are not yet in force at `base_node`."""
+    base = {f.ident() for f in fl.state_at(base_node).facts}
+    return [(f.xnode, f.pol, f) for f in fl.state_at(node).facts if f.kind == "cond" and f.ident() not in base]
+
+
+def accumulate_loop(fi, fl):
+    """Recognise  acc = [] ; for v in <iter>: ... acc.append(v) ... ; return acc | tuple(acc) | list(acc)
+    (one loop, no break / return / raise inside it, `acc` touched nowhere else, `v` never re-bound).
+    -> dict(loop=For, var=name, iter=expanded iterable, append=call node) or None."""
+    rets = [(s, st) for k, s, st in fl.exits if k == "return"]
+    if len(rets) != 1 or any(k == "fall" for k, _, _ in fl.exits):
+        return None
+    ret, _ = rets[0]
+    if ret not in fi.node.body:
+        return None
+    accn = unwrap_seq(ret.value)
+    if not isinstance(accn, ast.Name):
+        return None
+    acc = accn.id
+    if acc in fi.params:
+        return None
+    stores = [n for n in ast.walk(fi.node) if isinstance(n, ast.Name) and n.id == acc and isinstance(n.ctx, (ast.Store, ast.Del))]
+    loads = [n for n in ast.walk(fi.node) if isinstance(n, ast.Name) and n.id == acc and isinstance(n.ctx, ast.Load) and n is not accn]
+    init = [s for s in fi.node.body if isinstance(s, (ast.Assign, ast.AnnAssign)) and
+            any(is_name(t, acc) for t in (s.targets if isinstance(s, ast.Assign) else [s.target]))]
+    if len(stores) != 1 or len(init) != 1 or len(loads) != 1:
+        return None
+    v0 = init[0].value
+    empty = (isinstance(v0, ast.List) and not v0.elts) or (isinstance(v0, ast.Call) and dotted(v0.func) == "list" and not v0.args and not v0.keywords)
+    if not empty:
+        return None
+    use = loads[0]
+    att = fl.parent.get(id(use))
+    call = fl.parent.get(id(att))
+    stmt = fl.parent.get(id(call))
+    if not (isinstance(att, ast.Attribute) and att.attr == "append" and isinstance(call, ast.Call) and call.func is att
+            and isinstance(stmt, ast.Expr) and len(call.args) == 1 and not call.keywords):
+        return None
+    loops, cur = [], stmt
+    while cur is not None and cur is not fi.node:
+        cur = fl.parent.get(id(cur))
+        if isinstance(cur, (ast.For, ast.AsyncFor, ast.While)):
+            loops.append(cur)
+    if len(loops) != 1 or not isinstance(loops[0], ast.For) or loops[0] not in fi.node.body or loops[0].orelse:
+        return None
+    loop = loops[0]
+    if fi.node.body.index(init[0]) > fi.node.body.index(loop) or not isinstance(loop.target, ast.Name):
+        return None
+    var = loop.target.id
+    if var in FunctionFlow.assigned_names(loop.body) or not is_name(call.args[0], var):
+        return None
+    for n in ast.walk(loop):
+        if isinstance(n, (ast.Break, ast.Return, ast.Raise)):
+            return None
+    return dict(loop=loop, var=var, iter=fl.expand(loop.iter, fl.state_at(loop)), append=call)
+
+
+# --------------------------------------------------------------------------------------------
+# the rule
+# --------------------------------------------------------------------------------------------
 def run(ctx):
     P = ctx.prog
     ctx.explanation = (
         "Table rules (K11) and sibling rules (K8). The operator vocabulary is read from three places - the __str__ tables "
         "of ComparisonOperators / LogicalOperators, the keys and lambdas of OPERATOR_MAPPING, and the string literals the "
-        "two back-ends compare against - and must agree; every lambda must implement the comparison its key names. The "
-        "two search implementations are compared on how they root the attribute path, how they treat objects lacking the "
-        "attribute, and whether type selection is applied on every path; LDMService.query is checked the same way. These "
-        "are agreements between code sites, valid for every filter and store.")
+        "two back-ends compare against - and must agree; every lambda must implement the comparison its key names and both "
+        "back-ends must apply it as (attribute value, reference value) of one filter statement. The two search "
+        "implementations are compared on how they root the attribute path, how they treat objects lacking the attribute, "
+        "and whether type selection is applied on every path (and what the selecting helper keeps); LDMService.query and "
+        "the ordering are checked the same way. These are agreements between code sites, decided on the syntax tree and "
+        "the flow facts, valid for every filter and store.")
     ctx.declined = ["equivalence with a predicate evaluator over generated stores", "TinyDB query semantics",
-                    "comparison of values of different types"]
+                    "comparison of values of different types", "bodies of Utils.get_nested / Utils.find_attribute / "
+                    "RequestDataObjectsReq.get_object_type_from_data_object (resolved as callees, not re-derived)"]
     mod = P.module(f"{LDM}.ldm_constants")
     cmp_cls = P.cls(f"{LDM}.ldm_classes.ComparisonOperators")
     log_cls = P.cls(f"{LDM}.ldm_classes.LogicalOperators")
+    db, tdb = P.cls(DB), P.cls(TDB)
+    check_vocabulary(ctx, P, mod, cmp_cls, log_cls)
+    check_like(ctx, P, mod, tdb)
+    check_logical(ctx, P, db, tdb, log_cls)
+    check_application(ctx, P, mod, db, tdb)
+    ctx.floor("C13.ops", 38)
+    check_path_root(ctx, P, db, tdb)
+    check_missing_attr(ctx, P, db)
+    check_types(ctx, P, db, tdb)
+    ctx.floor("C13.types-always", 9)
+    check_order(ctx, P)
+
+
+# ---------------------------------------------------------------- operator vocabulary
+def check_vocabulary(ctx, P, mod, cmp_cls, log_cls):
     cstr = str_table(P, cmp_cls)
     lstr = str_table(P, log_cls)
     ctx.ob("C13.ops", cmp_cls.qual[10:], "str-covers-members", set(cstr) == set(cmp_cls.enum_members),
@@ -69,182 +281,847 @@ def run(ctx):
     for k, v in zip(opm.keys, opm.values):
         if isinstance(k, ast.Constant):
             keys[k.value] = v
-    ctx.ob("C13.ops", f"{LDM}.ldm_constants.OPERATOR_MAPPING", "keys=operator-strings", set(keys) == set(cstr.values()),
+    ctx.ob("C13.ops", f"{LDM}.ldm_constants.OPERATOR_MAPPING", "keys=operator-strings", set(keys) == set(cstr.values()) and len(keys) == len(opm.keys),
            f"OPERATOR_MAPPING keys {sorted(keys)} vs ComparisonOperators strings {sorted(cstr.values())}", f"{mod.rel}:{opm.lineno}")
     want_member = {"==": "EQUAL", "!=": "NOT_EQUAL", ">": "GREATER_THAN", "<": "LESS_THAN", ">=": "GREATER_THAN_OR_EQUAL",
                    "<=": "LESS_THAN_OR_EQUAL", "like": "LIKE", "notlike": "NOT_LIKE"}
     for sym, member in want_member.items():
         ctx.ob("C13.ops", cmp_cls.qual[10:], f"symbol:{member}", cstr.get(member) == sym,
                f"{member} prints as {cstr.get(member)!r} (must be {sym!r})", f"{cmp_cls.module.rel}:{cmp_cls.node.lineno}")
+    wl = mod.funcs.get("_wrap_like_operator")
+    if wl is None:
+        raise AnalysisError("C13: _wrap_like_operator vanished")
+    # any function of the module can stand in for the lambda's owner when resolving callees of the lambda bodies
     for sym, lam in keys.items():
         loc = f"{mod.rel}:{lam.lineno}"
-        if not isinstance(lam, ast.Lambda) or len(lam.args.args) != 2:
+        if not isinstance(lam, ast.Lambda) or len(lam.args.args) != 2 or lam.args.vararg or lam.args.kwarg or lam.args.kwonlyargs or lam.args.defaults:
             ctx.ob("C13.ops", f"{LDM}.ldm_constants.OPERATOR_MAPPING", f"entry:{sym}", False, "entry is not a two-argument lambda", loc)
             continue
         a, b = lam.args.args[0].arg, lam.args.args[1].arg
         body = lam.body
         if sym in CMP.values():
             ok = isinstance(body, ast.Compare) and len(body.ops) == 1 and CMP.get(type(body.ops[0])) == sym and \
-                unparse(body.left) == a and unparse(body.comparators[0]) == b
+                is_name(body.left, a) and is_name(body.comparators[0], b) and a != b
             ctx.ob("C13.ops", f"{LDM}.ldm_constants.OPERATOR_MAPPING", f"entry:{sym}", ok,
                    f"'{sym}' is implemented as `{unparse(body)}` (must be `{a} {sym} {b}`)", loc)
         else:
-            neg = any(kw.arg == "negate" and isinstance(kw.value, ast.Constant) and kw.value.value is True for kw in getattr(body, "keywords", []))
-            ok = isinstance(body, ast.Call) and dotted(body.func) == "_wrap_like_operator" and \
-                [unparse(x) for x in body.args[:2]] == [a, b] and neg == (sym == "notlike")
+            ok = False
+            if isinstance(body, ast.Call) and calls_to(P, wl, body, wl.qual) and a != b:
+                bd = bind(wl, body)
+                if bd is not None and set(bd) == set(wl.params):
+                    p_t, p_r, p_n = wl.params[:3]
+                    neg = bd[p_n]
+                    ok = is_name(bd[p_t], a) and is_name(bd[p_r], b) and isinstance(neg, ast.Constant) and \
+                        neg.value is (sym == "notlike")
             ctx.ob("C13.ops", f"{LDM}.ldm_constants.OPERATOR_MAPPING", f"entry:{sym}", ok,
-                   f"'{sym}' is implemented as `{unparse(body)}`", loc)
-    wl = mod.funcs.get("_wrap_like_operator")
-    if wl is None:
-        raise AnalysisError("C13: _wrap_like_operator vanished")
-    # negation is part of the per-value predicate on BOTH paths (query object / raw value): a negated query object (`~q`)
-    # also matches documents on which the attribute path does not resolve, the in-memory back-end does not
-    inner = [n for n in wl.node.body if isinstance(n, ast.FunctionDef)]
-    pred_ok, pred_name = False, None
-    for f in inner:
-        rets = [n for n in ast.walk(f) if isinstance(n, ast.Return) and n.value is not None]
-        for r in rets:
-            v = r.value
-            if isinstance(v, ast.IfExp) and unparse(v.test) == "negate" and isinstance(v.body, ast.UnaryOp) and isinstance(v.body.op, ast.Not) \
-                    and unparse(v.body.operand) == unparse(v.orelse):
-                base = v.orelse
-                defs = {n.targets[0].id: n.value for n in ast.walk(f) if isinstance(n, ast.Assign) and isinstance(n.targets[0], ast.Name)}
-                b = defs.get(base.id) if isinstance(base, ast.Name) else base
-                if isinstance(b, ast.Call) and dotted(b.func) == "_value_contains" and len(b.args) == 2 and unparse(b.args[0]) == f.args.args[0].arg \
-                        and unparse(b.args[1]) == wl.params[1]:
-                    pred_ok, pred_name = True, f.name
-    ctx.ob("C13.ops", f"{LDM}.ldm_constants._wrap_like_operator", "negation-in-predicate", pred_ok,
-           f"the per-value predicate `{pred_name}` returns contains(value, reference), negated iff negate" if pred_ok else
-           "no inner predicate of the form `(not contains) if negate else contains` found", wl.loc)
-    outer_rets = [n for n in ast.walk(wl.node) if isinstance(n, ast.Return) and n.value is not None and not any(n in list(ast.walk(f)) for f in inner)]
-    forms = sorted(norm(unparse(r.value)) for r in outer_rets)
-    ok = pred_ok and forms == sorted([f"test_method({pred_name})", f"{pred_name}({wl.params[0]})"])
+                   f"'{sym}' is implemented as `{unparse(body)}` (must be the containment helper on (value, reference), negated iff notlike)", loc)
+    ctx.ob("C13.ops", log_cls.qual[10:], "and-or", lstr == {"AND": "and", "OR": "or"}, f"LogicalOperators strings {lstr}",
+           f"{log_cls.module.rel}:{log_cls.node.lineno}")
+
+
+# ---------------------------------------------------------------- like / notlike
+def check_like(ctx, P, mod, tdb):
+    wl = mod.funcs["_wrap_like_operator"]
+    vc = mod.funcs.get("_value_contains")
+    if vc is None or len(wl.params) < 3:
+        raise AnalysisError("C13: _value_contains / _wrap_like_operator signature vanished")
+    p_target, p_ref, p_neg = wl.params[:3]
+    rebound = FunctionFlow.assigned_names(wl.node.body)
+    inner = [f for f in P.funcs.values() if f.parent is wl]
+
+    def pred_decides(f) -> bool:
+        """f(value) == (contains(value, reference) != negate) on all four valuations."""
+        if len(f.params) != 1 or {p_ref, p_neg} & (rebound | set(f.params)):
+            return False
+        fl = ctx.flows.get(f)
+        vp = f.params[0]
+        if vp in FunctionFlow.assigned_names(f.node.body):
+            return False
+        try:
+            for c in (True, False):
+                for n in (True, False):
+                    def leaf(e, c=c, n=n):
+                        if is_name(e, p_neg):
+                            return n
+                        if isinstance(e, ast.Call) and calls_to(P, f, e, vc.qual):
+                            bd = bind(vc, e)
+                            if bd is not None and is_name(bd.get(vc.params[0]), vp) and is_name(bd.get(vc.params[1]), p_ref):
+                                return c
+                        return None
+                    feasible = []
+                    for k, s, st in fl.exits:
+                        if k != "return" or s.value is None:
+                            return False
+                        if all(bool_eval(ft.xnode, leaf) == ft.pol for ft in st.facts if ft.kind == "cond"):
+                            feasible.append(fl.expand(s.value, st))
+                    if len(feasible) != 1 or bool_eval(feasible[0], leaf) != (c != n):
+                        return False
+        except Undecided:
+            return False
+        return True
+
+    good = [f for f in inner if pred_decides(f)]
+    pred = good[0] if good else None
+    ctx.ob("C13.ops", f"{LDM}.ldm_constants._wrap_like_operator", "negation-in-predicate", pred is not None,
+           f"the per-value predicate `{pred.name}` yields contains(value, reference) XOR negate on all four valuations" if pred else
+           "no inner per-value predicate computes `contains(value, reference) != negate`", wl.loc)
+    # both paths (query object / raw value) return the predicate's own verdict
+    fl = ctx.flows.get(wl)
+    kinds, bad = set(), []
+    for k, s, st in fl.exits:
+        if k == "raise":
+            continue
+        v = fl.expand(s.value, st) if k == "return" and s.value is not None else None
+        kind = None
+        if pred is not None and isinstance(v, ast.Call) and not v.keywords and len(v.args) == 1:
+            if is_name(v.func, pred.name) and is_name(v.args[0], p_target):
+                kind = "raw"
+            elif is_name(v.args[0], pred.name) and (sem.same(v.func, f"getattr({p_target}, 'test', None)") or
+                                                    sem.same(v.func, f"getattr({p_target}, 'test')") or sem.same(v.func, f"{p_target}.test")):
+                kind = "query"
+        if kind is None:
+            bad.append(short(v) if v is not None else "None")
+        else:
+            kinds.add(kind)
+    ok = pred is not None and not bad and kinds == {"raw", "query"} and not ({p_target, pred.name} & rebound) \
+        and sum(1 for n in ast.walk(wl.node) if isinstance(n, ast.FunctionDef) and n.name == pred.name) == 1
     ctx.ob("C13.ops", f"{LDM}.ldm_constants._wrap_like_operator", "negation", ok,
            "both paths return the predicate's own verdict (query: test(predicate); raw value: predicate(value)) - notlike is the exact negation of like "
-           "per stored value" if ok else f"_wrap_like_operator returns {forms}: negation is applied outside the per-value predicate on some path", wl.loc)
-    inv = [(f2, n) for f2 in list(mod.funcs.values()) + list(P.cls(TDB).methods.values()) for n in ast.walk(f2.node)
+           "per stored value" if ok else f"_wrap_like_operator returns {bad or sorted(kinds)}: the verdict is not the per-value predicate's on some path", wl.loc)
+    # the containment helper: a verdict is a membership test of the needle in the candidate, or False
+    flv = ctx.flows.get(vc)
+    cand, needle = vc.params[:2]
+    n_in, vbad = 0, []
+    for k, s, st in flv.exits:
+        v = flv.expand(s.value, st) if k == "return" and s.value is not None else None
+        if isinstance(v, ast.Constant) and v.value is False:
+            continue
+        if isinstance(v, ast.Compare) and len(v.ops) == 1 and isinstance(v.ops[0], ast.In) and is_name(v.comparators[0], cand) and \
+                (is_name(v.left, needle) or sem.same(v.left, f"str({needle})")):
+            n_in += 1
+            continue
+        vbad.append(short(v) if v is not None else k)
+    ctx.ob("C13.ops", vc.short(), "contains", n_in >= 1 and not vbad,
+           "like = `needle in candidate` (as text for strings), everything else is a non-match" if n_in and not vbad else
+           f"_value_contains yields {vbad or 'no membership test'}", vc.loc)
+    inv = [(f2, n) for f2 in list(mod.funcs.values()) + list(tdb.methods.values()) for n in ast.walk(f2.node)
            if isinstance(n, ast.UnaryOp) and isinstance(n.op, ast.Invert)]
     ctx.ob("C13.missing-attr", f"{LDM}", "no-query-inversion", not inv,
            "no `~` on query objects in the operator helpers / TinyDB back-end" if not inv else
            f"`~` applied at {[(f2.short(), n.lineno) for f2, n in inv]}: an inverted TinyDB query matches documents that LACK the attribute", mod.rel + ":1")
-    ctx.ob("C13.ops", log_cls.qual[10:], "and-or", lstr == {"AND": "and", "OR": "or"}, f"LogicalOperators strings {lstr}",
-           f"{log_cls.module.rel}:{log_cls.node.lineno}")
-    # the literals the back-ends test
-    db, tdb = P.cls(DB), P.cls(TDB)
-    fd = db.methods["_filter_data"]
-    # the branch taken for 'and' combines with and/&, the other with or/|
-    found = False
-    for n in ast.walk(fd.node):
-        if isinstance(n, ast.If) and "logical_operator" in unparse(n.test):
-            found = True
-            t = norm(unparse(n.test))
-            lit_and = t == "str(data_filter.logical_operator)=='and'"
 
-            def ops(stmts):
-                out = set()
-                for b in stmts:
-                    for x in ast.walk(b):
-                        if isinstance(x, ast.BinOp) and isinstance(x.op, (ast.BitAnd, ast.BitOr)):
-                            out.add("and" if isinstance(x.op, ast.BitAnd) else "or")
-                        if isinstance(x, ast.BoolOp):
-                            out.add("and" if isinstance(x.op, ast.And) else "or")
-                return out
-            a_ops, o_ops = ops(n.body), ops(n.orelse)
-            ctx.ob("C13.ops", fd.short(), "logical-literals", lit_and, f"in-memory back-end tests `{unparse(n.test)}` (must be the 'and' literal of LogicalOperators)",
-                   f"{fd.module.rel}:{n.lineno}")
-            ctx.ob("C13.ops", fd.short(), "and->and,or->or", a_ops == {"and"} and o_ops == {"or"},
-                   f"'and' branch combines the two statements with {sorted(a_ops)}, the other branch with {sorted(o_ops)}", f"{fd.module.rel}:{n.lineno}")
-    if not found:
-        raise AnalysisError("C13: in-memory back-end no longer distinguishes the logical operator")
-    bf = tdb.methods["_build_filter_condition"]
-    src = norm(unparse(bf.node))
-    ctx.ob("C13.ops", bf.short(), "logical-literals",
-           "iflogical_operator=='and':returnleft_condition&right_condition" in src and "iflogical_operator=='or':returnleft_condition|right_condition" in src,
-           "TinyDB back-end: 'and' -> &, 'or' -> |", bf.loc)
-    ctx.ob("C13.ops", bf.short(), "operator-string", "self.create_query_search(attribute_query,str(node.operator),node.ref_value)" in src,
-           "TinyDB back-end looks the operator up by str(operator)", bf.loc)
-    allsrc = "".join(norm(unparse(m_.node)) for m_ in db.methods.values())
-    ctx.ob("C13.ops", fd.short(), "operator-string", "str(data_filter.filter_statement_1.operator)" in allsrc or "str(statement.operator)" in allsrc,
-           "in-memory back-end looks the operator up by str(operator)", fd.loc)
-    ctx.floor("C13.ops", 22)
 
-    # ---- attribute path root: both back-ends must resolve `a.b.c` from the same root of the stored record
+# ---------------------------------------------------------------- and / or
+def _logic_sites(fi, fl):
+    """Nodes whose VALUE is a combination of two verdicts: `a and b` / `a or b` / `a & b` / `a | b` (or `x &= y` / `x |= y`)
+    that is assigned or returned, directly or as a branch of a conditional expression."""
+    out = []
+
+    def value(e):
+        if isinstance(e, ast.IfExp):
+            value(e.body)
+            value(e.orelse)
+        elif isinstance(e, ast.BoolOp):
+            out.append((e, "and" if isinstance(e.op, ast.And) else "or"))
+        elif isinstance(e, ast.BinOp) and isinstance(e.op, (ast.BitAnd, ast.BitOr)):
+            out.append((e, "and" if isinstance(e.op, ast.BitAnd) else "or"))
+
+    for n in ast.walk(fi.node):
+        if isinstance(n, (ast.FunctionDef, ast.Lambda)) and n is not fi.node:
+            continue
+        if isinstance(n, (ast.Assign, ast.AnnAssign, ast.Return)) and n.value is not None:
+            value(n.value)
+        elif isinstance(n, ast.AugAssign) and isinstance(n.op, (ast.BitAnd, ast.BitOr)):
+            out.append((n, "and" if isinstance(n.op, ast.BitAnd) else "or"))
+    return out
+
+
+def check_logical(ctx, P, db, tdb, log_cls):
+    lstr = str_table(P, log_cls)
+    lit = {"and": lstr.get("AND"), "or": lstr.get("OR")}
+    for cls_, mname in ((db, "_filter_data"), (tdb, "_build_filter_condition")):
+        fi = cls_.methods[mname]
+        fl = ctx.flows.get(fi)
+        fparam = fi.params[1] if cls_ is db else fi.params[2]
+        st2 = sem.want(f"{fparam}.filter_statement_2 is not None")
+        sites = _logic_sites(fi, fl)
+        if not sites:
+            raise AnalysisError(f"C13: {fi.short()} no longer combines two verdicts with and/or")
+
+        def op_text(e) -> bool:
+            """str(<filter>.logical_operator) - optionally `or <vocabulary literal>` as default"""
+            if not (isinstance(e, ast.Call) and dotted(e.func) == "str" and len(e.args) == 1 and not e.keywords):
+                return False
+            x = e.args[0]
+            if isinstance(x, ast.BoolOp) and isinstance(x.op, ast.Or) and len(x.values) == 2 and isinstance(x.values[1], ast.Constant) \
+                    and x.values[1].value in lit.values():
+                x = x.values[0]
+            return sem.same(x, f"{fparam}.logical_operator")
+
+        def decide(node):
+            """which vocabulary literal selects `node`: ('and'|'or'|None, foreign tests)"""
+            pos, negs, foreign = set(), set(), []
+            for ft in fl.state_at(node).facts:
+                if ft.kind != "cond" or "logical_operator" not in ft.xkey:
+                    continue
+                for xn, pol in cond_atoms(ft.xnode, ft.pol):
+                    if "logical_operator" not in unparse(xn):
+                        continue
+                    key = None
+                    if isinstance(xn, ast.Compare) and len(xn.ops) == 1 and isinstance(xn.ops[0], ast.Eq):
+                        for c_, o_ in ((xn.left, xn.comparators[0]), (xn.comparators[0], xn.left)):
+                            if isinstance(c_, ast.Constant) and isinstance(c_.value, str) and op_text(o_):
+                                key = [k for k, v in lit.items() if v == c_.value]
+                    if not key:
+                        foreign.append(f"{'' if pol else 'not '}{short(xn)}")
+                    else:
+                        (pos if pol else negs).add(key[0])
+            if len(pos) == 1:
+                return next(iter(pos)), foreign
+            if not pos and len(negs) == 1:
+                return ("or" if negs == {"and"} else "and"), foreign
+            return None, foreign
+
+        seen, lit_ok, comb_ok, why = set(), True, True, []
+        for node, opk in sites:
+            decided, foreign = decide(node)
+            if decided is None or foreign:
+                lit_ok = False
+                why.append(f"line {node.lineno}: `{short(node)}` is selected by {foreign or 'no test of the logical operator'}")
+                continue
+            seen.add(opk)
+            if decided != opk:
+                comb_ok = False
+                why.append(f"line {node.lineno}: the '{decided}' case combines with `{opk}`")
+        if seen != {"and", "or"} and lit_ok and comb_ok:
+            comb_ok = False
+            why.append(f"only {sorted(seen)} combinations exist")
+        ctx.ob("C13.ops", fi.short(), "logical-literals", lit_ok,
+               f"every combination of two verdicts is selected by comparing str(logical_operator) with {sorted(v for v in lit.values() if v)}"
+               if lit_ok else "; ".join(why), fi.loc)
+        ctx.ob("C13.ops", fi.short(), "and->and,or->or", lit_ok and comb_ok,
+               "'and' combines with and/&, 'or' with or/|" if lit_ok and comb_ok else "; ".join(why), fi.loc)
+        # what is combined: the verdict of statement 1 with the verdict of statement 2
+        evaluator = cls_.methods["_statement_holds"] if cls_ is db else fi
+        obj_loops = [x for x in fi.node.body if isinstance(x, ast.For) and isinstance(x.target, ast.Name)] if cls_ is db else []
+
+        def verdict_class(e, at):
+            """'1' / '2' when `e` is the evaluation of filter_statement_1 / _2 of this filter (on the current object)"""
+            if not (isinstance(e, ast.Call) and len(targets(P, fi, e)) == 1 and targets(P, fi, e)[0] is evaluator):
+                return None
+            bd = bind(evaluator, e)
+            if bd is None or len(evaluator.params) != 3:
+                return None
+            subject, stmt = bd.get(evaluator.params[1]), bd.get(evaluator.params[2])
+            if cls_ is db:
+                own = [lp for lp in obj_loops if inside(at, lp)]
+                if len(own) != 1 or not is_name(subject, own[0].target.id):
+                    return None
+            elif not is_name(subject, fi.params[1]):
+                return None
+            if isinstance(stmt, ast.Attribute) and is_name(stmt.value, fparam) and stmt.attr in ("filter_statement_1", "filter_statement_2"):
+                return stmt.attr[-1]
+            return None
+
+        def combination(e, at) -> bool:
+            """e == <verdict 1> op <verdict 2> (either order)"""
+            ops_ = e.values if isinstance(e, ast.BoolOp) else [e.left, e.right] if isinstance(e, ast.BinOp) else []
+            return len(ops_) == 2 and {verdict_class(x, at) for x in ops_} == {"1", "2"}
+
+        decided, undecided, both = set(), [], True
+        for node, opk in sites:
+            st_ = fl.state_at(node)
+            if isinstance(node, ast.AugAssign):
+                load = copy_load(node.target)
+                operands = [load, node.value]
+            else:
+                operands = node.values if isinstance(node, ast.BoolOp) else [node.left, node.right]
+            classes = []
+            for x in operands:
+                classes.append({verdict_class(a, node) for a in fl.alternatives(x, st_)})
+            if any(None in c for c in classes):
+                undecided.append(node.lineno)
+                continue
+            decided.add(opk)
+            if len(operands) != 2 or any(len(c) != 1 for c in classes) or set().union(*classes) != {"1", "2"}:
+                both = False
+                why.append(f"line {node.lineno}: `{short(node)}` does not combine the verdicts of filter_statement_1 and filter_statement_2")
+        if undecided:
+            ctx.note(f"C13.ops both-statements: combination(s) at line(s) {undecided} of {fi.short()} accumulate over a sequence of statements "
+                     "(operands not resolvable to the two statement slots) - selection by literal is decided, operands are not")
+        ctx.ob("C13.ops", fi.short(), "both-statements", both and decided == {"and", "or"},
+               "each resolvable combination takes the verdict of filter_statement_1 and the verdict of filter_statement_2 (on the same object / query)"
+               if both and decided == {"and", "or"} else "; ".join(why) or f"only {sorted(decided)} combinations are resolvable", fi.loc)
+        if cls_ is db:
+            # an object is kept iff its verdict (single statement, or the combination) is true
+            info = accumulate_loop(fi, fl)
+            kept, ktext = False, "shape not recognised"
+            if info is not None:
+                g = new_guards(fl, info["append"], info["loop"])
+                kept = bool(g)
+                for xn, pol, ft in g:
+                    alts = [b for a in fl.alternatives(ft.node, fl.state_at(info["append"])) for b in arms(a)]
+                    good = pol and bool(alts) and all(verdict_class(a, info["append"]) == "1" or combination(a, info["append"]) for a in alts)
+                    kept = kept and good
+                ktext = f"an object is kept under {[('' if pol else 'not ') + short(xn) for xn, pol, _ in g]}"
+            ctx.ob("C13.ops", fi.short(), "kept-iff-verdict", kept,
+                   "an object is kept exactly when its verdict holds" if kept else f"_filter_data: {ktext}", fi.loc)
+            # the combination happens exactly when there is a second statement (no further narrowing)
+            narrow = []
+            for node, opk in sites:
+                loop = [x for x in ast.walk(fi.node) if isinstance(x, ast.For) and inside(node, x)]
+                base = loop[0] if loop else fi.node.body[0]
+                extra = set()
+                for xn, pol, ft in new_guards(fl, node, base):
+                    extra |= set(sem.atoms(xn, pol))
+                extra = {a for a in extra if "logical_operator" not in a}
+                if not set(st2) <= sem.facts(fl, node) or extra - set(st2):
+                    narrow.append(f"line {node.lineno}: guarded by {sorted(extra)}")
+            ctx.ob("C13.ops", fi.short(), "combined-iff-second-statement", not narrow,
+                   "the two verdicts are combined exactly when filter_statement_2 is present" if not narrow else "; ".join(narrow), fi.loc)
+
+
+# ---------------------------------------------------------------- how the operator function is applied
+def check_application(ctx, P, mod, db, tdb):
+    opm = mod.consts["OPERATOR_MAPPING"]
+
+    def is_opm(fi, n) -> bool:
+        if not isinstance(n, ast.Name):
+            return False
+        r = P.resolve_name(fi.module, sem.cx(n))
+        return isinstance(r, tuple) and r[0] == "const" and r[2] is opm and sem.cx(n) not in FunctionFlow.assigned_names(fi.node.body)
+
+    def lookup_key(fi, f):
+        """f == OPERATOR_MAPPING[k] or OPERATOR_MAPPING.get(k[, None]) -> k"""
+        if isinstance(f, ast.Subscript) and is_opm(fi, f.value):
+            return f.slice
+        if isinstance(f, ast.Call) and isinstance(f.func, ast.Attribute) and f.func.attr == "get" and is_opm(fi, f.func.value) and not f.keywords \
+                and (len(f.args) == 1 or (len(f.args) == 2 and isinstance(f.args[1], ast.Constant) and f.args[1].value is None)):
+            return f.args[0]
+        return None
+
+    spec = ((db, "_create_query_search", "_get_nested", "_filter_data"),
+            (tdb, "create_query_search", "_create_query_from_filter_statement", "_build_filter_condition"))
+    for cls_, lname, resolver, anchor in spec:
+        L = cls_.methods[lname]
+        fl = ctx.flows.get(L)
+        if len(L.params) != 4:
+            raise AnalysisError(f"C13: {L.short()} no longer takes (value, operator, reference)")
+        p_val, p_op, p_ref = L.params[1:4]
+        rebound = FunctionFlow.assigned_names(L.node.body) & {p_val, p_op, p_ref}
+        n_ok, bad = 0, []
+        for k, s, st in fl.exits:
+            if k == "raise":
+                continue
+            if k != "return" or s.value is None:
+                bad.append("falls off / returns nothing")
+                continue
+            shapes = fl.alternatives(s.value, st)
+            for v in shapes:
+                key = lookup_key(L, v.func) if isinstance(v, ast.Call) else None
+                if key is None or not is_name(key, p_op):
+                    bad.append(f"returns `{short(v)}`")
+                elif v.keywords or len(v.args) != 2 or not is_name(v.args[0], p_val) or not is_name(v.args[1], p_ref):
+                    bad.append(f"applies the operator function to ({', '.join(short(a) for a in v.args)})")
+                else:
+                    n_ok += 1
+        ok = n_ok >= 1 and not bad and not rebound
+        ctx.ob("C13.ops", L.short(), "operand-order", ok,
+               f"the function looked up under `{p_op}` is applied to ({p_val}, {p_ref}): attribute value left, reference value right" if ok else
+               f"{'; '.join(bad) or 'parameters re-bound'} (must be OPERATOR_MAPPING[{p_op}]({p_val}, {p_ref}))", L.loc)
+        # call sites: operator, attribute and reference of ONE statement
+        A = cls_.methods[anchor]
+        R = cls_.methods[resolver]
+        sites = [(f, c) for f in cls_.methods.values() for c in P.calls_in(f) if calls_to(P, f, c, L.qual)]
+        if not sites:
+            raise AnalysisError(f"C13: no call of {L.short()} inside {cls_.name}")
+        op_ok, from_ok, why = True, True, []
+        for f, c in sites:
+            flf = ctx.flows.get(f)
+            bd = bind(L, c)
+            if bd is None or not {p_val, p_op, p_ref} <= set(bd):
+                op_ok = from_ok = False
+                why.append(f"{f.name}:{c.lineno} arguments not statically bound")
+                continue
+            st = flf.state_at(c)
+            o = flf.expand(bd[p_op], st)
+            r = flf.expand(bd[p_ref], st)
+            stmt = None
+            if isinstance(o, ast.Call) and dotted(o.func) == "str" and len(o.args) == 1 and not o.keywords and \
+                    isinstance(o.args[0], ast.Attribute) and o.args[0].attr == "operator":
+                stmt = o.args[0].value
+            else:
+                op_ok = False
+                why.append(f"{f.name}:{c.lineno} operator key is `{short(o)}` (must be str(<statement>.operator))")
+            if stmt is None:
+                from_ok = False
+                continue
+            sx = sem.cx(stmt)
+            good = isinstance(r, ast.Attribute) and r.attr == "ref_value" and sem.cx(r.value) == sx
+            vals = flf.alternatives(bd[p_val], st)
+            for v in vals:
+                g = False
+                if isinstance(v, ast.Call) and calls_to(P, f, v, R.qual):
+                    b2 = bind(R, v)
+                    if b2 is not None and len(R.params) == 3:
+                        path = b2.get(R.params[2])
+                        if isinstance(path, ast.Call) and dotted(path.func) == "str" and len(path.args) == 1 and not path.keywords:
+                            path = path.args[0]
+                        g = isinstance(path, ast.Attribute) and path.attr == "attribute" and sem.cx(path.value) == sx and \
+                            isinstance(b2.get(R.params[1]), ast.Name) and sem.cx(b2[R.params[1]]) in f.params
+                good = good and g
+            # the statement is a parameter of the site's function or a statement slot of its filter parameter
+            head = stmt
+            while isinstance(head, ast.Attribute):
+                head = head.value
+            good = good and isinstance(head, ast.Name) and sem.cx(head) in f.params
+            if not good:
+                from_ok = False
+                why.append(f"{f.name}:{c.lineno} compares `{short(vals[0]) if vals else '?'}` with `{short(r)}` under `{short(o)}`")
+        ctx.ob("C13.ops", A.short(), "operator-string", op_ok,
+               f"{cls_.name} looks the operator function up by str(operator)" if op_ok else "; ".join(why), A.loc)
+        ctx.ob("C13.ops", A.short(), "one-statement", from_ok,
+               "attribute path, operator and reference value are taken from the same filter statement" if from_ok else "; ".join(why), A.loc)
+    # the in-memory verdict of a statement is the truth value of the operator function's result
+    sh = [(f, c) for f in db.methods.values() for c in P.calls_in(f) if calls_to(P, f, c, db.methods["_create_query_search"].qual)]
+    for f, c in sh:
+        flf = ctx.flows.get(f)
+        bad = []
+        for k, s, st in flf.exits:
+            if k != "return" or s.value is None:
+                continue
+            v = flf.expand(s.value, st)
+            if falsy_const(v) and any(kk == "handler" for _, kk in flf.enclosing_handlers(s)):
+                continue
+            while isinstance(v, ast.Call) and dotted(v.func) == "bool" and len(v.args) == 1 and not v.keywords:
+                v = v.args[0]
+            if not (isinstance(v, ast.Call) and calls_to(P, f, v, db.methods["_create_query_search"].qual) and sem.cx(v) == sem.cx(flf.expand(c, flf.state_at(c)))):
+                bad.append(f"line {s.lineno}: returns `{short(v)}`")
+        ctx.ob("C13.ops", f.short(), "verdict", not bad, "a statement's verdict is the truth value of the operator function's result" if not bad
+               else "; ".join(bad), f.loc)
+
+
+# ---------------------------------------------------------------- attribute path root
+def _seq_of(P, mod, e):
+    """Abstract element list of a sequence expression: ('lit', s) / ('split', name, sep)."""
+    if isinstance(e, (ast.List, ast.Tuple)):
+        out = []
+        for x in e.elts:
+            if isinstance(x, ast.Starred):
+                sub = _seq_of(P, mod, x.value)
+                if sub is None:
+                    return None
+                out += sub
+            else:
+                s = const_str(P, mod, x)
+                if s is None:
+                    return None
+                out.append(("lit", s))
+        return out
+    if isinstance(e, ast.BinOp) and isinstance(e.op, ast.Add):
+        a, b = _seq_of(P, mod, e.left), _seq_of(P, mod, e.right)
+        return None if a is None or b is None else a + b
+    if isinstance(e, ast.Call) and dotted(e.func) in ("list", "tuple") and len(e.args) == 1 and not e.keywords:
+        return _seq_of(P, mod, e.args[0])
+    if isinstance(e, ast.Call) and isinstance(e.func, ast.Attribute) and e.func.attr == "split" and isinstance(e.func.value, ast.Name) \
+            and len(e.args) == 1 and not e.keywords and const_str(P, mod, e.args[0]) is not None:
+        return [("split", sem.cx(e.func.value), const_str(P, mod, e.args[0]))]
+    return None
+
+
+def _nav_steps(P, fi, fl):
+    """Steps by which `fi(self, data, path)` descends from its `data` argument: straight-line code of
+    data = data[<lit>] / data = getattr(data, <lit>) / for k in <seq>: data = <step by k> / return data."""
+    if len(fi.params) != 3:
+        return None
+    data, path = fi.params[1], fi.params[2]
+
+    def step_of(s):
+        """s: `data = data[K]` or `data = getattr(data, K)` -> K"""
+        if not (isinstance(s, ast.Assign) and len(s.targets) == 1 and is_name(s.targets[0], data)):
+            return None
+        v = s.value
+        if isinstance(v, ast.Subscript) and is_name(v.value, data):
+            return v.slice
+        if isinstance(v, ast.Call) and dotted(v.func) == "getattr" and len(v.args) == 2 and not v.keywords and is_name(v.args[0], data):
+            return v.args[1]
+        return None
+
+    steps = []
+    body = [b for b in fi.node.body if not (isinstance(b, ast.Expr) and isinstance(b.value, ast.Constant))]
+    for i, s in enumerate(body):
+        if isinstance(s, ast.Return):
+            return steps if i == len(body) - 1 and is_name(s.value, data) else None
+        if isinstance(s, ast.For):
+            if s.orelse or len(s.body) != 1 or not isinstance(s.target, ast.Name):
+                return None
+            k = step_of(s.body[0])
+            if k is None or not is_name(k, s.target.id) or s.target.id in (data, path):
+                return None
+            seq = _seq_of(P, fi.module, fl.expand(s.iter, fl.state_at(s)))
+            if seq is None:
+                return None
+            steps += [(t[0], "PATH" if t[0] == "split" and t[1] == path else t[1], *t[2:]) for t in seq]
+            continue
+        k = step_of(s)
+        if k is not None:
+            lit = const_str(P, fi.module, k)
+            if lit is None:
+                return None
+            steps.append(("lit", lit))
+            continue
+        if isinstance(s, (ast.Assign, ast.AnnAssign)):
+            tg = s.targets if isinstance(s, ast.Assign) else [s.target]
+            if all(isinstance(t, ast.Name) and t.id not in (data, path) for t in tg):
+                continue   # a local, resolved through the flow where it is used
+        return None
+    return None
+
+
+def check_path_root(ctx, P, db, tdb):
     gn = db.methods["_get_nested"]
-    src = norm(unparse(gn.node))
-    mem_root = "dataObject" if "data=data['dataObject']" in src or 'data=data["dataObject"]' in unparse(gn.node) else "<record>"
     cq = tdb.methods["_create_query_from_filter_statement"]
-    src2 = norm(unparse(cq.node))
-    tdb_root = "dataObject" if "dataObject" in src2 else "<record>"
-    ctx.ob("C13.path-root", "both-back-ends", "same-root", mem_root == tdb_root,
-           f"in-memory back-end resolves the dotted path under {mem_root!r}, TinyDB under {tdb_root!r}: the same filter selects "
-           "different objects (a path such as 'cam.camParameters...' matches only in memory, 'dataObject.cam...' only in TinyDB)"
-           if mem_root != tdb_root else f"both back-ends resolve attribute paths under {mem_root!r}", gn.loc)
+    mem = _nav_steps(P, gn, ctx.flows.get(gn))
+    tin = _nav_steps(P, cq, ctx.flows.get(cq))
+    ok = mem is not None and mem == tin
+    ctx.ob("C13.path-root", "both-back-ends", "same-root", ok,
+           f"both back-ends descend by {mem}" if ok else
+           f"in-memory back-end descends by {mem if mem is not None else '<shape not recognised>'}, TinyDB by "
+           f"{tin if tin is not None else '<shape not recognised>'}: the same filter selects different objects (a path such as "
+           "'cam.camParameters...' matches only on one back-end)", gn.loc)
 
-    # ---- an object lacking the attribute simply does not match
+
+# ---------------------------------------------------------------- an object lacking the attribute does not match
+def _nonmatch_catch(P, fi, fl, site):
+    """The innermost try around `site` whose first KeyError-covering handler turns the failure into a non-match.
+    -> (decided: bool, text)"""
+    chain = [t for t, kk in fl.enclosing_handlers(site) if kk == "body"]
+    for t in reversed(chain):
+        hs = [h for h in t.handlers if covers_keyerror(h)]
+        if not hs:
+            continue
+        h = hs[0]
+        # (a) the handler leaves the function with a falsy constant
+        if terminates(h.body):
+            outs = [(k, s) for k, s, st in fl.exits if s is not None and inside(s, h)]
+            conts = [n for b in h.body for n in ast.walk(b) if isinstance(n, (ast.Continue, ast.Break))]
+            if outs and not conts and all(k == "return" and falsy_const(s.value) for k, s in outs):
+                return True, f"`except {short(h.type) if h.type else ''}` -> non-match"
+            return False, f"the handler at line {h.lineno} does not yield a non-match (it yields " \
+                          f"{[short(s.value) if k == 'return' and s.value is not None else k for k, s in outs] or 'continue/break'})"
+        # (b) try: v = <evaluation> / except: v = <falsy>
+        if len(t.body) == 1 and isinstance(t.body[0], ast.Assign) and len(t.body[0].targets) == 1 and isinstance(t.body[0].targets[0], ast.Name) \
+                and len(h.body) == 1 and isinstance(h.body[0], ast.Assign) and len(h.body[0].targets) == 1 and \
+                is_name(h.body[0].targets[0], t.body[0].targets[0].id) and falsy_const(h.body[0].value) and not t.orelse and not t.finalbody:
+            return True, "the handler records a non-match"
+        return False, f"the handler at line {h.lineno} neither returns nor records a non-match"
+    return None, "not caught here"
+
+
+def check_missing_attr(ctx, P, db):
     s = db.methods["search"]
-    fl = ctx.flows.get(s)
-    handlers = [n for n in ast.walk(s.node) if isinstance(n, ast.ExceptHandler) and n.type is not None and "KeyError" in unparse(n.type)]
-    per_object = False
-    # a KeyError handler inside the per-object evaluation: in the loop body of _filter_data or in a function it calls
-    loops = [n for n in ast.walk(fd.node) if isinstance(n, ast.For)]
-    inner = set()
-    for lp in loops:
-        for n in ast.walk(lp):
-            if isinstance(n, ast.Try) and any(h.type is not None and "KeyError" in unparse(h.type) for h in n.handlers):
-                per_object = True
-            if isinstance(n, ast.Call):
-                for t in P.call_targets(fd, n, count=False):
-                    if isinstance(t, FuncInfo):
-                        inner.add(t.qual)
-                        for c2 in P.calls_in(t):
-                            for t2 in P.call_targets(t, c2, count=False):
-                                if isinstance(t2, FuncInfo):
-                                    inner.add(t2.qual)
-    for q_ in inner:
-        f_ = P.funcs[q_]
-        for n in ast.walk(f_.node):
-            if isinstance(n, ast.Try) and any(h.type is not None and "KeyError" in unparse(h.type) for h in n.handlers):
-                per_object = True
-    whole_scan = bool(handlers) and any(isinstance(b, ast.Return) and norm(unparse(b.value)) in ("tuple()", "()") for h in handlers for b in h.body)
-    ctx.ob("C13.missing-attr", s.short(), "per-object", per_object or not whole_scan,
-           "a missing attribute is handled per object" if per_object or not whole_scan else
-           "the KeyError of ONE object lacking the attribute aborts the whole scan (`except KeyError: return tuple()`): a filter on an "
-           "optional container returns nothing as soon as one stored object lacks it", s.loc)
+    fd = db.methods["_filter_data"]
+    gn = db.methods["_get_nested"]
+    fl_fd = ctx.flows.get(fd)
+    loops = [n for n in fd.node.body if isinstance(n, ast.For)]
+    if len(loops) != 1:
+        raise AnalysisError("C13: _filter_data no longer scans the stored objects in one loop")
+    loop = loops[0]
+    sites = [(f, c) for f in db.methods.values() for c in P.calls_in(f) if calls_to(P, f, c, gn.qual)]
+    if not sites:
+        raise AnalysisError("C13: no use of DictionaryDataBase._get_nested left")
+    ok, why = True, []
 
-    # ---- type selection on every path
+    def per_object(f, node, depth=0) -> bool:
+        """Is a KeyError raised at `node` (inside f) turned into a non-match of the ONE object being evaluated?"""
+        flf = ctx.flows.get(f)
+        dec, text = _nonmatch_catch(P, f, flf, node)
+        if dec is not None:
+            if not dec:
+                why.append(f"{f.name}: {text}")
+            return bool(dec)
+        if f is fd:
+            why.append(f"{f.name}:{getattr(node, 'lineno', 0)}: a KeyError escapes the loop over the stored objects - one object "
+                       "lacking the attribute aborts the whole scan")
+            return False
+        if depth > 3:
+            return False
+        callers = [(g, c) for g in db.methods.values() for c in P.calls_in(g) if calls_to(P, g, c, f.qual)]
+        if not callers:
+            why.append(f"{f.name}: never called")
+            return False
+        return all(per_object(g, c, depth + 1) for g, c in callers)
+
+    for f, c in sites:
+        ok = per_object(f, c) and ok
+    # the per-object evaluation really happens per object: inside the loop, on the loop variable
+    ev = set()
+    for f, c in sites:
+        ev.add(f.qual)
+    for q in sorted(ev):
+        f = P.funcs[q]
+        if f is fd:
+            continue
+        for g in db.methods.values():
+            for c in P.calls_in(g):
+                if calls_to(P, g, c, f.qual):
+                    if not (g is fd and inside(c, loop) and c.args and isinstance(loop.target, ast.Name) and is_name(c.args[0], loop.target.id)):
+                        ok = False
+                        why.append(f"{g.name}:{c.lineno}: {f.name} is not applied to the object of the current iteration")
+    ctx.ob("C13.missing-attr", s.short(), "per-object", ok,
+           "a missing attribute (KeyError while descending) is caught per object and counts as a non-match" if ok else "; ".join(dict.fromkeys(why)), s.loc)
+
+
+# ---------------------------------------------------------------- type selection
+def check_types(ctx, P, db, tdb):
+    req = P.cls(REQ)
+    fo = req.methods["filter_out_by_data_object_type"]
+    got = req.methods["get_object_type_from_data_object"]
+    fd = db.methods["_filter_data"]
+    sdc = P.func(f"{LDM}.ldm_maintenance.LDMMaintenance.search_data_containers")
+    osr = P.func(f"{SV}.order_search_results")
+
+    def typed(fi, e, reqp) -> bool:
+        """`e` (locals expanded) holds only objects of the types requested by `reqp`."""
+        e = unwrap_seq(e)
+        if not isinstance(e, ast.Call):
+            return False
+        tg = targets(P, fi, e)
+        if len(tg) != 1:
+            return False
+        bd = bind(tg[0], e)
+        if bd is None:
+            return False
+        if tg[0] is fo:
+            return len(fo.params) == 2 and sem.same(bd.get(fo.params[1], ast.Constant(None)), f"{reqp}.data_object_type")
+        if tg[0] is fd:
+            return typed(fi, bd.get(fd.params[2], ast.Constant(None)), reqp)        # a subset of its candidates (own obligation)
+        if tg[0] is sdc:
+            return is_name(bd.get(sdc.params[1]), reqp)                              # delegates to the back-end search (own obligation)
+        return False
+
     for cls_ in (db, tdb):
         m = cls_.methods["search"]
         fl = ctx.flows.get(m)
+        reqp = m.params[1]
         for k, st_, st in fl.exits:
             if k != "return":
                 continue
-            x = norm(pretty(unparse(fl.expand(st_.value, st))))
+            x = fl.expand(st_.value, st) if st_.value is not None else ast.Constant(None)
             in_handler = any(kk == "handler" for _, kk in fl.enclosing_handlers(st_))
-            if x in ("tuple()", "()") and in_handler:
+            ux = unwrap_seq(x)
+            if in_handler and ((isinstance(ux, ast.Tuple) and not ux.elts) or (isinstance(ux, ast.Call) and dotted(ux.func) in ("tuple", "list") and not ux.args)):
                 continue
-            ok = "filter_out_by_data_object_type(" in x and "data_request.data_object_type" in x
+            ok = all(typed(m, a, reqp) for a in fl.alternatives(st_.value, st)) and reqp not in FunctionFlow.assigned_names(m.node.body)
             ctx.ob("C13.types-always", m.short(), f"return@{st_.lineno - m.node.lineno}", ok,
                    "result restricted to the requested data object types" if ok else
-                   f"a search result is returned without type selection: `{x[:90]}`", f"{m.module.rel}:{st_.lineno}")
+                   f"a search result is returned without type selection: `{short(x)}`", f"{m.module.rel}:{st_.lineno}")
+    # the selecting helper keeps exactly the objects whose type is among the requested ones
+    flo = ctx.flows.get(fo)
+
+    def type_test(fi, node, pol, var, typesp) -> bool:
+        if not (pol and isinstance(node, ast.Compare) and len(node.ops) == 1 and isinstance(node.ops[0], ast.In)):
+            return False
+        l, r = node.left, node.comparators[0]
+        if not (is_name(r, typesp) and isinstance(l, ast.Call) and calls_to(P, fi, l, got.qual)):
+            return False
+        bd = bind(got, l)
+        a = bd.get(got.params[0]) if bd else None
+        return isinstance(a, ast.Subscript) and is_name(a.value, var) and const_str(P, fi.module, a.slice) == "dataObject"
+
+    keeps, text = False, "shape not recognised (accumulating loop or comprehension over the first argument)"
+    if len(fo.params) == 2 and not (set(fo.params) & FunctionFlow.assigned_names(fo.node.body)):
+        srcp, typesp = fo.params
+        info = accumulate_loop(fo, flo)
+        if info is not None and is_name(info["iter"], srcp):
+            g = new_guards(flo, info["append"], info["loop"])
+            hit = [(n, p) for n, p, _ in g if type_test(fo, n, p, info["var"], typesp)]
+            allowed = set()
+            for n, p in hit:
+                allowed |= set(sem.atoms(n, p))
+            have = set()
+            for n, p, _ in g:
+                have |= set(sem.atoms(n, p))
+            keeps = bool(hit) and have <= allowed
+            text = f"an object is kept under {sorted(have)}"
+        else:
+            rets = [(s_, st) for k, s_, st in flo.exits if k == "return"]
+            if len(rets) == 1 and not any(k == "fall" for k, _, _ in flo.exits) and rets[0][0].value is not None:
+                c = unwrap_seq(flo.expand(rets[0][0].value, rets[0][1]))
+                if isinstance(c, (ast.ListComp, ast.GeneratorExp)) and len(c.generators) == 1 and not c.generators[0].is_async:
+                    gen = c.generators[0]
+                    if isinstance(gen.target, ast.Name) and is_name(gen.iter, srcp) and is_name(c.elt, gen.target.id) and gen.ifs:
+                        at = []
+                        for t in gen.ifs:
+                            at += cond_atoms(t, True)
+                        keeps = all(type_test(fo, n, p, gen.target.id, typesp) for n, p in at)
+                        text = f"an object is kept under {[short(t) for t in gen.ifs]}"
+    ctx.ob("C13.types-always", fo.short(), "keeps-requested-types", keeps,
+           "the helper keeps, in order, exactly the objects whose type is among the requested types" if keeps else
+           f"filter_out_by_data_object_type does not keep exactly the objects of the requested types: {text}", fo.loc)
+    # _filter_data returns a sub-sequence of its candidates
+    ffd = ctx.flows.get(fd)
+    info = accumulate_loop(fd, ffd)
+    sub = info is not None and is_name(info["iter"], fd.params[2])
+    ctx.ob("C13.types-always", fd.short(), "subset-of-candidates", sub,
+           "the filtered result consists of objects of the (typed) candidate sequence only" if sub else
+           "_filter_data no longer returns a sub-sequence of its `database` argument (shape not recognised)", fd.loc)
+    # LDMMaintenance.search_data_containers delegates to the back-end search
+    fls = ctx.flows.get(sdc)
+    dele = []
+    for k, s_, st in fls.exits:
+        v = fls.expand(s_.value, st) if k == "return" and s_.value is not None else None
+        good = isinstance(v, ast.Call) and isinstance(v.func, ast.Attribute) and v.func.attr == "search" and \
+            sem.same(v.func.value, "self.data_containers") and len(v.args) == 1 and not v.keywords and is_name(v.args[0], sdc.params[1])
+        dele.append(good)
+    ctx.ob("C13.types-always", sdc.short(), "delegates-to-back-end", bool(dele) and all(dele),
+           "the filtered query path is the back-end search of the same request", sdc.loc)
+    # LDMService.query
     q = P.func(f"{SV}.query")
     fl = ctx.flows.get(q)
-    for n in ast.walk(q.node):
-        if isinstance(n, ast.Assign) and dotted(n.targets[0]) == "search_result" and isinstance(n.value, ast.Call) and \
-                isinstance(n.value.func, ast.Attribute) and n.value.func.attr in ("get_all_data_containers", "search_data_containers"):
-            typed = n.value.func.attr == "search_data_containers" or "data_object_type" in unparse(n.value)
-            # does anything later restrict the unfiltered result by type?
-            later = [x for x in ast.walk(q.node) if isinstance(x, ast.Call) and "filter" in (dotted(x.func) or "").lower() and
-                     "data_object_type" in unparse(x) and x.lineno > n.lineno]
-            ctx.ob("C13.types-always", q.short(), f"{n.value.func.attr}", typed or bool(later),
-                   "query result restricted to the requested types" if typed or later else
-                   "the unfiltered branch of LDMService.query returns get_all_data_containers(): every stored object of every type, "
-                   "whatever data_object_type was requested", f"{q.module.rel}:{n.lineno}")
-    ctx.floor("C13.types-always", 5)
+    reqp = q.params[1]
+    n = 0
+    for k, s_, st in fl.exits:
+        if k != "return":
+            continue
+        if any(kk == "handler" for _, kk in fl.enclosing_handlers(s_)) and isinstance(s_.value, ast.Tuple) and not s_.value.elts:
+            continue
+        seen = set()
+        for alt in (fl.alternatives(s_.value, st) if s_.value is not None else [ast.Constant(None)]):
+            x = alt
+            if isinstance(x, ast.Call) and calls_to(P, q, x, osr.qual):
+                bd = bind(osr, x)
+                x = bd.get(osr.params[1]) if bd else None                  # ordering permutes its input (C13.order)
+            elif isinstance(x, ast.Tuple) and len(x.elts) == 1:
+                x = x.elts[0]
+            else:
+                x = None
+            key = sem.cx(x) if x is not None else sem.cx(alt)
+            if key in seen:
+                continue
+            seen.add(key)
+            src = [c.func.attr for c in ast.walk(x if x is not None else alt) if isinstance(c, ast.Call) and isinstance(c.func, ast.Attribute)
+                   and c.func.attr in ("get_all_data_containers", "search_data_containers", "search", "all")]
+            ok = x is not None and typed(q, x, reqp) and reqp not in FunctionFlow.assigned_names(q.node.body)
+            n += 1
+            ctx.ob("C13.types-always", q.short(), src[0] if src else f"result-{n}", ok,
+                   "query result restricted to the requested types" if ok else
+                   f"LDMService.query returns `{short(alt, 120)}`: objects of every stored type, whatever data_object_type was requested",
+                   f"{q.module.rel}:{s_.lineno}")
+    if n == 0:
+        raise AnalysisError("C13: LDMService.query has no result-returning path left")
 
-    # ---- ordering
+
+# ---------------------------------------------------------------- ordering
+def check_order(ctx, P):
     o = P.func(f"{SV}.order_search_results")
-    src = norm(unparse(o.node))
-    ctx.ob("C13.order", o.short(), "keys-from-request", "Utils.get_nested(item,Utils.find_attribute(order.attribute,item))fororderinorders" in src,
-           "sort key = the requested attributes, in request order", o.loc)
-    ctx.ob("C13.order", o.short(), "direction", "reverse=any((order.ordering_direction==OrderingDirection.DESCENDINGfororderinorders))" in src
-           and "sorted(search_results,key=build_key,reverse=reverse)" in src, "direction from ordering_direction", o.loc)
+    fl = ctx.flows.get(o)
+    if len(o.params) != 3:
+        raise AnalysisError("C13: order_search_results no longer takes (search_results, orders)")
+    resp, ordp = o.params[1], o.params[2]
+    utils = P.cls(f"{LDM}.ldm_classes.Utils")
+    gn, fa = utils.methods["get_nested"], utils.methods["find_attribute"]
+    od = P.cls(f"{LDM}.ldm_classes.OrderingDirection")
+    stable = not ({resp, ordp} & FunctionFlow.assigned_names(o.node.body))
+
+    def over_orders(g):
+        """comprehension with the single clause `for v in orders` -> v"""
+        if isinstance(g, (ast.GeneratorExp, ast.ListComp)) and len(g.generators) == 1:
+            c = g.generators[0]
+            if not c.ifs and not c.is_async and isinstance(c.target, ast.Name) and is_name(c.iter, ordp) and c.target.id != ordp:
+                return c.target.id
+        return None
+
+    def key_ok(k) -> tuple:
+        """key function: item -> tuple(get_nested(item, find_attribute(v.attribute, item)) for v in orders)"""
+        if isinstance(k, ast.Lambda):
+            owner, args, rets = o, k.args, [k.body]
+        elif isinstance(k, ast.Name):
+            nf = [f for f in P.funcs.values() if f.parent is o and f.name == sem.cx(k)]
+            if len(nf) != 1 or sum(1 for n in ast.walk(o.node) if isinstance(n, ast.Name) and n.id == nf[0].name and isinstance(n.ctx, ast.Store)):
+                return False, f"key `{short(k)}` is not a function defined once in order_search_results"
+            owner, args = nf[0], nf[0].node.args
+            flk = ctx.flows.get(owner)
+            if any(kk != "return" or s.value is None for kk, s, st in flk.exits):
+                return False, "key function does not always return a key"
+            rets = [flk.expand(s.value, st) for kk, s, st in flk.exits]
+            if {ordp} & (FunctionFlow.assigned_names(owner.node.body) | {a.arg for a in args.args}):
+                return False, f"`{ordp}` is re-bound inside the key function"
+        else:
+            return False, f"key `{short(k)}` is neither a lambda nor a local function"
+        if len(args.args) != 1 or args.vararg or args.kwarg or args.kwonlyargs or args.posonlyargs:
+            return False, "key function does not take exactly one item"
+        item = args.args[0].arg
+        for r in rets:
+            g = r.args[0] if isinstance(r, ast.Call) and dotted(r.func) in ("tuple", "list") and len(r.args) == 1 and not r.keywords else r
+            v = over_orders(g)
+            if v is None or v == item:
+                return False, f"key `{short(r)}` is not built from one element per entry of `{ordp}`"
+            e = g.elt
+            if not (isinstance(e, ast.Call) and calls_to(P, owner, e, gn.qual)):
+                return False, f"key element `{short(e)}` is not Utils.get_nested(...)"
+            b1 = bind(gn, e) or {}
+            pth = b1.get(gn.params[1])
+            if not (is_name(b1.get(gn.params[0]), item) and isinstance(pth, ast.Call) and calls_to(P, owner, pth, fa.qual)):
+                return False, f"key element `{short(e)}` does not look the attribute up in the compared item"
+            b2 = bind(fa, pth) or {}
+            if not (sem.same(b2.get(fa.params[0], ast.Constant(None)), f"{v}.attribute") and is_name(b2.get(fa.params[1]), item)):
+                return False, f"key element `{short(e)}` does not use the requested attribute of each order entry on the compared item"
+        return True, ""
+
+    def direction_ok(r) -> tuple:
+        """reverse = any(v.ordering_direction == DESCENDING for v in orders)"""
+        if not (isinstance(r, ast.Call) and dotted(r.func) == "any" and len(r.args) == 1 and not r.keywords):
+            return False, f"reverse=`{short(r)}`"
+        v = over_orders(r.args[0])
+        if v is None:
+            return False, f"reverse=`{short(r)}` does not range over every entry of `{ordp}`"
+        e, pol = r.args[0].elt, True
+        while isinstance(e, ast.UnaryOp) and isinstance(e.op, ast.Not):
+            e, pol = e.operand, not pol
+        if not (isinstance(e, ast.Compare) and len(e.ops) == 1 and isinstance(e.ops[0], (ast.Eq, ast.NotEq, ast.Is, ast.IsNot))):
+            return False, f"reverse test `{short(e)}`"
+        if isinstance(e.ops[0], (ast.NotEq, ast.IsNot)):
+            pol = not pol
+        sides = [e.left, e.comparators[0]]
+        attr = [x for x in sides if sem.same(x, f"{v}.ordering_direction")]
+        ent = [P.resolve_expr_entity(o.module, x) for x in sides if not sem.same(x, f"{v}.ordering_direction")]
+        if len(attr) != 1 or len(ent) != 1 or not (isinstance(ent[0], tuple) and ent[0][0] == "enum" and ent[0][1] is od):
+            return False, f"reverse test `{short(e)}` does not compare the entry's ordering_direction with an OrderingDirection member"
+        member = ent[0][2]
+        good = (pol and member == "DESCENDING") or (not pol and member == "ASCENDING" and set(od.enum_members) == {"ASCENDING", "DESCENDING"})
+        return good, "" if good else f"reverse is true for entries that are {'' if pol else 'not '}{member}"
+
+    n_sorted, k_why, d_why, shape = 0, [], [], []
+    for kk, s, st in fl.exits:
+        if kk == "raise":
+            continue
+        v = fl.expand(s.value, st) if kk == "return" and s.value is not None else None
+        if not (isinstance(v, ast.Tuple) and len(v.elts) == 1):
+            shape.append(f"returns `{short(v) if v is not None else None}` (must be a 1-tuple of the ordered sequence)")
+            continue
+        x = unwrap_seq(v.elts[0])
+        if isinstance(x, ast.Call) and dotted(x.func) == "sorted" and len(x.args) == 1 and {k.arg for k in x.keywords} <= {"key", "reverse"}:
+            n_sorted += 1
+            kw = {k.arg: k.value for k in x.keywords}
+            if not is_name(x.args[0], resp):
+                shape.append(f"sorts `{short(x.args[0])}` instead of `{resp}`")
+            g, t = key_ok(kw["key"]) if "key" in kw else (False, "no sort key")
+            if not g:
+                k_why.append(t)
+            g, t = direction_ok(kw["reverse"]) if "reverse" in kw else (False, "no `reverse`: the requested direction is ignored")
+            if not g:
+                d_why.append(t)
+        elif (is_name(x, resp) or (isinstance(x, ast.Tuple) and not x.elts)) and sem.holds(sem.facts_of_state(st), resp, False):
+            continue    # nothing to order
+        else:
+            shape.append(f"returns `{short(v)}`")
+    if not n_sorted:
+        shape.append("no sorted(...) result")
+    kok = stable and not shape and not k_why
+    ctx.ob("C13.order", o.short(), "keys-from-request", kok,
+           "sort key = every requested attribute, looked up in the compared item, in request order" if kok else
+           "; ".join(shape + k_why) or "parameters re-bound", o.loc)
+    dok = stable and not shape and not d_why
+    ctx.ob("C13.order", o.short(), "direction", dok, "direction from ordering_direction (descending iff any entry asks for it)" if dok else
+           "; ".join(shape + d_why) or "parameters re-bound", o.loc)
